@@ -964,6 +964,9 @@ class WorldImpl(World):
         acted = self.activity != a0
         if ready or acted:
             self.idle_turns = 0
+            # a busy iteration is not free: scenarios may price it (elapsed time must not be inferred
+            # from the number of select() time-outs alone)
+            self.now += self.scn.features.get('_dt_busy', 0.0)
         else:
             self.idle_turns += 1
             self.now += (timeout if timeout else 0.0)
